@@ -213,11 +213,11 @@ def run(ctx):
         nbig = 100050
         vbig = etl.fromdicts(({'a': i} for i in range(nbig)), header=['a'])
         lead, lag = iter(vbig), iter(vbig)
-        got_lag = [next(lag) for _ in range(11)]
+        got_lag = [tuple(next(lag)) for _ in range(11)]
         n_lead = sum(1 for _ in itertools.islice(lead, nbig - 20))
-        got_lag += list(lag)
+        got_lag += [tuple(r) for r in lag]
         rest_lead = list(lead)
-        okbig = got_lag == [('a',)] + [(i,) for i in range(nbig)] and n_lead + len(rest_lead) == nbig + 1 and list(vbig)[-1] == (nbig - 1,)
+        okbig = got_lag == [('a',)] + [(i,) for i in range(nbig)] and n_lead + len(rest_lead) == nbig + 1 and tuple(list(vbig)[-1]) == (nbig - 1,)
         ctx.case(('fromdicts(generator)', 'long', nbig))
         ctx.count('view:fromdicts-long')
         if not okbig:
